@@ -216,6 +216,9 @@ class Lexer:
                                "for multiline strings instead.\n"
                                "This will become a hard error in a future Meson release.")
                         mlog.warning(mlog.code_line(msg, self.getline(line_start), col), location=BaseNode(lineno, col, filename))
+                        # Keep the line accounting right for the tokens that follow.
+                        lineno += value.count('\n')
+                        line_start = span_start + value.rfind('\n') + 1
                     value = value[2 if tid == 'fstring' else 1:-1]
                 elif tid in {'multiline_string', 'multiline_fstring'}:
                     value = value[4 if tid == 'multiline_fstring' else 3:-3]
